@@ -73,6 +73,19 @@ def stream_nexts(S, k, b, lp, start):
         if t["k"] != "call":
             continue
         names = callee_names(t)
+        # a local closure that advances a stream (`let mut next_share = |w| iter.next().ok_or(..)`): its calls count
+        if any(n.rsplit("::", 1)[-1] in ("call_mut", "call", "call_once") for n in names) and t["args"] and t["args"][0]["k"] != "const" and "{closure:" in t["args"][0]["p"]["ty"]:
+            cdef = next((n for n in names if n in fg.by_id and "{closure" in n), "")
+            for ck in fg.by_id.get(cdef, []):
+                cb = fg.bodies[ck]
+                for cbi, ct in cb.calls():
+                    cn = callee_names(ct)
+                    if any(n.endswith("Iterator::next") or n.endswith("::next") for n in cn) and ct["args"] and ct["args"][0]["k"] != "const":
+                        cty = ct["args"][0]["p"]["ty"]
+                        if "file_or_mem_buf::Iter<" in cty and cbi in cb.live_blocks():
+                            el = cty[cty.index("file_or_mem_buf::Iter<") + len("file_or_mem_buf::Iter<"):].rstrip(">")
+                            out[("closure:" + cdef, el)] += 1
+            continue
         if not any(n.endswith("Iterator::next") or n.endswith("::next") for n in names):
             continue
         a = t["args"][0]
